@@ -154,6 +154,37 @@ def _escape(repo, rep):
     rep.check(ok, "R20.2", f.qualname, "with escape off, ${...} values are "
               "inserted with an empty escape set (unescaped string form)",
               construct="unescaped", where=L.where(f))
+    # entities are a markup concept: no decoding inside ${...} in text mode
+    interp = [w for w in A.walk(v) if isinstance(w, A.NodeV)
+              and w.kind == "Interpolation"]
+    okd = bool(interp)
+    for w in interp:
+        d = w.kwargs.get("decode_htmlentities")
+        if d is None and len(w.args) > 5:
+            d = w.args[5]
+        t = A.show(d) if d is not None else ""
+        if "self.escape" not in t:
+            okd = False
+    rep.check(okd, "R20.2", f.qualname, "whether character entities in the "
+              "expression text are decoded follows the escape flag (off in "
+              "text mode: '&amp;' inside ${...} is ordinary text)",
+              construct="entities-in-text-mode", where=L.where(f),
+              detail=str([A.show(w.kwargs.get("decode_htmlentities"))
+                          for w in interp]))
+    g = repo.func("chameleon.compiler.ExpressionTransform.visit_Interpolation")
+    calls = [n for n in ast.walk(g.node) if isinstance(n, ast.Call)
+             and src(n.func) == "Interpolator"]
+    okg = len(calls) == 1 and any(
+        k.arg == "decode_htmlentities" and
+        src(k.value) == "node.decode_htmlentities" for k in calls[0].keywords)
+    rep.check(okg, "R20.2", g.qualname, "the interpolator decodes entities "
+              "only if the interpolation node says so",
+              construct="decode-from-node", where=L.where(g))
+    ic = repo.cls("chameleon.nodes.Interpolation")
+    dv = ic.attrs.get("decode_htmlentities")
+    rep.check(isinstance(dv, ast.Constant) and dv.value is True, "R20.2",
+              ic.qualname, "decoding is the default (markup contexts)",
+              construct="decode-default")
     # plain text: only $$ -> $
     texts = [w for w in A.walk(v) if isinstance(w, A.NodeV)
              and w.kind == "Text"]
